@@ -564,6 +564,9 @@ impl<'a> Machine<'a> {
                     }
                     let a = self.need(self.regs[RDI as usize], &format!("argument of {sym} (rdi)"))?;
                     self.c.out.calls.push(CallEv { newline, arg: a as i64 });
+                    if let Some(h) = self.c.opts.print_hook {
+                        h(newline, a as i64);
+                    }
                     self.c.log.add(0xca11 ^ a.rotate_left(7) ^ newline as u64);
                     self.c.out.faults.calls += 1;
                     let call_idx = self.c.call_idx;
